@@ -10,7 +10,7 @@ PROP = "C14"
 MODULE = "GmqttVerif.Properties.C14"
 N = "GmqttVerif.C14."
 THEOREMS = [N + t for t in (
-    "all_wrappers_installed", "wrapper_hook_names_match", "folds_run_last_to_first", "kinds_listed_once",
+    "all_wrappers_installed", "hooks_installed_before_captured", "wrapper_hook_names_match", "folds_run_last_to_first", "kinds_listed_once",
     "wrappers_nest", "wrappers_fire_once", "forward_loop_would_reverse",
     "connect_reject_clean", "auth_exchange_clean", "connect_continue_clean",
     "subscribe_verdict_error", "subscribe_verdict_state", "subscribe_verdict_suback", "unsubscribe_verdict",
